@@ -398,3 +398,5 @@ CLAIMS["C14"]["text"] += (" Decaying-tag lifecycle is part of the history: Close
 CLAIMS["C14"]["note"] += (" Whether a registration under a just-closed name is refused is not asserted. Lifecycle operations are not generated in TestConcurrent.")
 CLAIMS["C19"]["text"] += (" Time is generated at nanosecond granularity: issue instants with arbitrary sub-second/sub-millisecond parts and uses at lifetime +1 ns / +0.4 ms / +0.6 ms / +0.4 s / +1 s (tokens: TokenTTL; challenge answers: 5 min), both randomly (TestServerProvenance, TestServerReuse) and exhaustively over key type x flow x 16 issue fractions x 9 use offsets (TestServerExpiryInstants); expiry is judged on full-precision time.Time values.")
 CLAIMS["C19"]["note"] += (" Acceptance exactly at the TTL instant and refusal before expiry are not judged; the issue instant is the virtual instant at which the harness saw the value handed out.")
+
+CLAIMS["C20"]["text"] += (" The swarm-level part also draws public UDP/IPv6 addresses no transport of the swarm can dial (QUIC draft-29, bare /udp): they are dropped before the detector is consulted, so the history-derived oracle counts no request for them (a query the detector never sees uses up no probe), CanDial must be false and they are never handed to a transport.")
